@@ -14,7 +14,9 @@ V4 = "ipv8/messaging/interfaces/udp/endpoint.py::UDPv4Address"
 
 class SessionKeysModel:
     """ipv8_rust_tunnels.SessionKeys (assumption A4: AEAD idealisation).  enc/dec per (key id, direction):
-       dec(k, d, enc(k, d, m)) == m ;  dec raises ValueError unless its input is some enc(k, d, m) ; |enc| > |m|"""
+       dec(k, d, enc(k, d, m)) == m ; |enc(m)| == |m| + 24 (nonce + tag);
+       dec raises ValueError for inputs shorter than 24 bytes and RuntimeError for any other input that is not some
+       enc(k, d, m) (observed behaviour of the extension: 'Content too short' / 'Decryption failed')"""
 
     def __init__(self, kid):
         self.kid = kid
@@ -23,15 +25,17 @@ class SessionKeysModel:
         c = uf_bytes("aead_enc", self.kid, direction, message)
         assume(uf_bool("aead_ok", self.kid, direction, c))
         assume(uf_bytes("aead_dec", self.kid, direction, c) == message)
-        assume(len(c) > len(message))
+        assume(len(c) == len(message) + 24)
         return c
 
     def decrypt_str(self, message, direction):
-        if not uf_bool("aead_ok", self.kid, direction, message):
+        if len(message) < 24:
             raise ValueError
+        if not uf_bool("aead_ok", self.kid, direction, message):
+            raise RuntimeError
         m = uf_bytes("aead_dec", self.kid, direction, message)
         assume(uf_bytes("aead_enc", self.kid, direction, m) == message)
-        assume(len(m) < len(message))
+        assume(len(m) + 24 == len(message))
         return m
 
 
